@@ -1064,8 +1064,17 @@ class Context:
         }
 
         array_class = type_classes[name]
+        # <Name>Array.prototype: what the typed arrays of this kind inherit from
+        prototype = JSObject(self._object_prototype)
 
         def constructor_fn(*args):
+            result = construct(*args)
+            result._prototype = prototype
+            if result._buffer._prototype is None:  # a buffer of its own
+                result._buffer._prototype = self._globals["ArrayBuffer"].get("prototype")
+            return result
+
+        def construct(*args):
             from .errors import JSRangeError
 
             arg = args[0] if args else UNDEFINED
@@ -1115,23 +1124,32 @@ class Context:
         constructor = JSCallableObject(constructor_fn)
         constructor._name = name
         constructor.set("BYTES_PER_ELEMENT", array_class._element_size)
+        constructor.set("prototype", prototype)
+        prototype.set("constructor", constructor)
         return constructor
 
     def _create_arraybuffer_constructor(self) -> JSCallableObject:
         """Create the ArrayBuffer constructor."""
         from .values import JSArrayBuffer
 
+        # ArrayBuffer.prototype: what every buffer inherits from
+        prototype = JSObject(self._object_prototype)
+
         def constructor_fn(*args):
             from .errors import JSRangeError
 
             length = self._to_index(args[0] if args else UNDEFINED)
             try:
-                return JSArrayBuffer(length)
+                buffer = JSArrayBuffer(length)
             except (MemoryError, OverflowError):
                 raise JSRangeError("Array buffer allocation failed")
+            buffer._prototype = prototype
+            return buffer
 
         constructor = JSCallableObject(constructor_fn)
         constructor._name = "ArrayBuffer"
+        constructor.set("prototype", prototype)
+        prototype.set("constructor", constructor)
         return constructor
 
     def _create_eval_function(self):
